@@ -1,2 +1,89 @@
-(* C09 statements; proofs in Proofs/. *)
-From BaoV Require Import Model.Fsm Spec.EncSpec.
+(* C09 statements; proofs in Proofs/Dec*.v. *)
+From BaoV Require Import Model.Fsm Spec.EncSpec Spec.HashAssm Spec.PTree.
+From Coq Require Import Arith.
+From BaoV Require Import Proofs.DecLoop Proofs.DecHash Proofs.DecForest Proofs.DecConst Proofs.DecRanges Proofs.DecTheorems.
+
+(* the error a plan item gives: chunk_err true = "not found", chunk_err false = "hash mismatch",
+   naming the node of a parent item and the start chunk of a leaf item *)
+Theorem C09_err_names : forall node start size ir lf rt rs,
+  chunk_err true (CParent node ir lf rt rs) = DParentNotFound node /\
+  chunk_err false (CParent node ir lf rt rs) = DParentHashMismatch node /\
+  chunk_err true (CLeaf start size ir rs) = DLeafNotFound start /\
+  chunk_err false (CLeaf start size ir rs) = DLeafHashMismatch start.
+Proof. exact chunk_err_names. Qed.
+Print Assumptions C09_err_names.
+
+(* the plan item and the honest item at the index of byte d belong together *)
+Theorem C09_item_named : forall HO (T : ptree HO) d,
+  (d < length (flat_items HO (items_of HO T)))%nat ->
+  exists c it, nth_error (plan_of HO T) (item_at HO (items_of HO T) d) = Some c /\
+               nth_error (items_of HO T) (item_at HO (items_of HO T) d) = Some it /\
+               names_item HO c it.
+Proof. exact item_named. Qed.
+Print Assumptions C09_item_named.
+
+(* item_at its d is the index k of the item containing byte d *)
+Theorem C09_item_at : forall HO (its : list (item HO)) d,
+  (d < length (flat_items HO its))%nat ->
+  (length (flat_items HO (firstn (item_at HO its d) its)) <= d)%nat /\
+  (d < length (flat_items HO (firstn (S (item_at HO its d)) its)))%nat /\
+  (item_at HO its d < length its)%nat.
+Proof. exact item_at_bounds. Qed.
+Print Assumptions C09_item_at.
+
+(* Part 2(b): the stream agrees with the honest encoding on exactly d bytes (d < its length); item k
+   contains byte d.  Both decoders yield exactly the first k items and fail naming item k: NotFound
+   if the stream ends before item k does, HashMismatch otherwise. *)
+Theorem C09_exact : forall HO, hash_ok HO ->
+  forall (T : ptree HO) (stream : bytes HO) d c, consistent HO T -> leaves_ok HO T ->
+  let honest := flat_items HO (items_of HO T) in
+  let k := item_at HO (items_of HO T) d in
+  lcp_len HO stream honest d -> (d < length honest)%nat ->
+  nth_error (plan_of HO T) k = Some c ->
+  let short := (length stream <? length (flat_items HO (firstn (S k) (items_of HO T))))%nat in
+  let r1 := dec_items_sync HO (plan_of HO T) [cv_of HO T] stream in
+  let r2 := dec_items_fsm HO (plan_of HO T) [cv_of HO T] stream in
+  (r_items HO r1 = firstn k (items_of HO T) /\ r_outcome HO r1 = Failed (chunk_err short c)) /\
+  (r_items HO r2 = firstn k (items_of HO T) /\ r_outcome HO r2 = Failed (chunk_err short c)).
+Proof. exact both_exact. Qed.
+Print Assumptions C09_exact.
+
+Theorem C09_truncation : forall HO, hash_ok HO ->
+  forall (T : ptree HO) p c, consistent HO T -> leaves_ok HO T ->
+  let honest := flat_items HO (items_of HO T) in
+  let k := item_at HO (items_of HO T) p in
+  (p < length honest)%nat -> nth_error (plan_of HO T) k = Some c ->
+  let stream := firstn p honest in
+  let r1 := dec_items_sync HO (plan_of HO T) [cv_of HO T] stream in
+  let r2 := dec_items_fsm HO (plan_of HO T) [cv_of HO T] stream in
+  (r_items HO r1 = firstn k (items_of HO T) /\ r_outcome HO r1 = Failed (chunk_err true c)) /\
+  (r_items HO r2 = firstn k (items_of HO T) /\ r_outcome HO r2 = Failed (chunk_err true c)).
+Proof. exact both_truncation. Qed.
+Print Assumptions C09_truncation.
+
+Theorem C09_alteration : forall HO, hash_ok HO ->
+  forall (T : ptree HO) p b b' c, consistent HO T -> leaves_ok HO T ->
+  let honest := flat_items HO (items_of HO T) in
+  let k := item_at HO (items_of HO T) p in
+  nth_error honest p = Some b -> b' <> b -> nth_error (plan_of HO T) k = Some c ->
+  let stream := firstn p honest ++ b' :: skipn (S p) honest in
+  let r1 := dec_items_sync HO (plan_of HO T) [cv_of HO T] stream in
+  let r2 := dec_items_fsm HO (plan_of HO T) [cv_of HO T] stream in
+  (r_items HO r1 = firstn k (items_of HO T) /\ r_outcome HO r1 = Failed (chunk_err false c)) /\
+  (r_items HO r2 = firstn k (items_of HO T) /\ r_outcome HO r2 = Failed (chunk_err false c)).
+Proof. exact both_alteration. Qed.
+Print Assumptions C09_alteration.
+
+Theorem C09_io_kind : forall n c k,
+  dec_err_kind (DParentNotFound n) = KUnexpectedEof /\
+  dec_err_kind (DLeafNotFound c) = KUnexpectedEof /\
+  dec_err_kind (DParentHashMismatch n) = KInvalidData /\
+  dec_err_kind (DLeafHashMismatch c) = KInvalidData /\
+  dec_err_kind (DIo k) = k.
+Proof. exact dec_err_kind_cases. Qed.
+Print Assumptions C09_io_kind.
+
+Theorem C09_chunk_err_kind : forall short c,
+  dec_err_kind (chunk_err short c) = if short then KUnexpectedEof else KInvalidData.
+Proof. exact chunk_err_kind. Qed.
+Print Assumptions C09_chunk_err_kind.
